@@ -21,7 +21,7 @@ prop("C18", ["T-CSLEEP", "T-DUMMY-ZP", "T-PROTECT-REGION", "T-OPT-PROT", "T-OPT-
 prop("C10", ["T-PREC", "T-CALC-OPS", "T-FOLD", "T-DIV-GUARD", "T-SIZEOF", "M-DIV-SITES"])
 import rules_total  # noqa
 import rules_treewalk  # noqa
-prop("C16", ["T-TREEWALK", "T-PRATT-TOTAL", "T-TOKEN-DOMAIN", "T-ERR-UNWRAP", "T-LOC-INDEX", "T-VARIANT-FLOW", "T-DIV-GUARD", "T-INUSE-CLOSURE", "T-LOOP-EXIT-SIBLINGS", "T-LOOP-PROGRESS", "T-REC-BOUND", "M-ERR-UNWRAP", "M-DIV-SITES", "T-COUNTER-RESET"])
+prop("C16", ["T-TREEWALK", "T-PRATT-TOTAL", "T-TOKEN-DOMAIN", "T-ERR-UNWRAP", "T-LOC-INDEX", "T-VARIANT-FLOW", "T-DIV-GUARD", "T-INUSE-CLOSURE", "T-LOOP-EXIT-SIBLINGS", "T-LOOP-PROGRESS", "T-REC-BOUND", "M-ERR-UNWRAP", "M-DIV-SITES", "T-COUNTER-RESET", "T-CPP-UNWRAP"])
 import rules_misc  # noqa
 prop("C12", ["T-CALL-EMIT", "T-CALL-RECORD", "T-CALL-WRITERS", "T-INUSE-CLOSURE"])
 prop("C11", ["T-OPTION-CONFINE", "T-ASMLINE-SIBLINGS", "T-CPP-SCAN-SIBLINGS", "T-OPT-PEEK", "T-LISTING-FORMAT"])
